@@ -269,6 +269,8 @@ Verdict(ty, bs) ==
 (***************************************************************************)
 Rot(r, n, o) == [i \in 1..n |-> r[((i - 1 + o) % Len(r)) + 1]]
 Ascii(n)     == [i \in 1..n |-> 97 + (i % 26)]
+Rep3(n)      == [i \in 1..(3 * n) |-> <<226, 130, 172>>[((i - 1) % 3) + 1]]          \* n times U+20AC
+Rep4(n)      == [i \in 1..(4 * n) |-> <<240, 159, 152, 128>>[((i - 1) % 4) + 1]]     \* n times U+1F600
 TwoPow(k)    == U64(BPow2(k))
 
 RECURSIVE Reps(_)
@@ -286,6 +288,8 @@ Reps(ty) ==
     [] tag = "string" -> << <<>>, <<97>>, <<195, 169>>, <<226, 130, 172>>, <<240, 159, 152, 128>>,
                             <<97, 195, 169, 226, 130, 172>>, <<0>>, <<97, 98>> >>
                          \o [k \in 1..Len(LongLens) |-> Ascii(LongLens[k])]
+                         \* long non-ASCII strings: multi-byte characters across every 4096-byte boundary
+                         \o << Rep3(1366), <<97>> \o Rep4(1024) >>
     [] tag = "opt"   -> LET r == Reps(ty[2]) IN << <<>> >> \o [i \in 1..Min2(Len(r), 4) |-> <<r[i]>>]
     [] tag = "arr"   -> LET r == Reps(ty[3]) IN
                         IF ty[2] = 0 THEN << <<>> >> ELSE [o \in 1..Min2(Len(r), 3) |-> Rot(r, ty[2], o - 1)]
@@ -304,6 +308,7 @@ Reps(ty) ==
                              LET r == Reps(ty[2][i]) IN r[((o - 1 + i - 1) % Len(r)) + 1]]]
 
 \* positions mutated / truncation points of an encoding: everything when short, both ends when long
-MutPos(enc)   == IF Len(enc) <= 48 THEN 1..Len(enc) ELSE (1..12) \cup ((Len(enc) - 3)..Len(enc))
-TruncLens(enc) == IF Len(enc) <= 48 THEN 0..(Len(enc) - 1) ELSE (0..12) \cup ((Len(enc) - 4)..(Len(enc) - 1))
+\* (encodings above 1 KiB — the long non-ASCII strings — are replayed as round trips and one truncation only)
+MutPos(enc)   == IF Len(enc) > 1024 THEN {} ELSE IF Len(enc) <= 48 THEN 1..Len(enc) ELSE (1..12) \cup ((Len(enc) - 3)..Len(enc))
+TruncLens(enc) == IF Len(enc) > 1024 THEN {Len(enc) - 1} ELSE IF Len(enc) <= 48 THEN 0..(Len(enc) - 1) ELSE (0..12) \cup ((Len(enc) - 4)..(Len(enc) - 1))
 =============================================================================
